@@ -96,6 +96,16 @@ package stanza
 //@ func (MessageType).MarshalText
 //@   ensures[C13] (t == "normal" || t == "chat" || t == "error" || t == "groupchat" || t == "headline") ==> len(result0) == len(t) && (forall i int :: 0 <= i && i < len(t) ==> result0[i] == t[i]) && result1 == nil
 
+// ...and the decoder of the type attribute is the inverse on the five defined
+// types: each decodes to itself (anything else is read as normal). IQType
+// serialises to itself unless it is empty.
+//@ func (*MessageType).UnmarshalXMLAttr
+//@   ensures[C13] result == nil
+//@   ensures[C13] (attr.Value == "normal" || attr.Value == "chat" || attr.Value == "error" || attr.Value == "groupchat" || attr.Value == "headline") ==> string(*t) == attr.Value
+//@   ensures[C13] !(attr.Value == "normal" || attr.Value == "chat" || attr.Value == "error" || attr.Value == "groupchat" || attr.Value == "headline") ==> *t == "normal"
+//@ func (IQType).MarshalText
+//@   ensures[C13] t != "" ==> len(result0) == len(t) && (forall i int :: 0 <= i && i < len(t) ==> result0[i] == t[i]) && result1 == nil
+
 // BEGIN enrolment C09 (generated by the safety sweep: every safety obligation of these functions is discharged)
 //@ nopanic [C09] (*Error).UnmarshalXML
 //@ nopanic [C09] (Error).Error
